@@ -63,3 +63,82 @@ Example c13_example_v14 :
   = Some [EvPacket {| k_src := 0x5566; k_src_ep := 1; k_dst := DGroup 0x00AB; k_dst_ep := 2; k_tsn := 9;
                       k_profile := 0x0104; k_cluster := 6; k_data := [1; 2; 3]; k_lqi := 200; k_rssi := -70 |}].
 Proof. vm_compute. reflexivity. Qed.
+
+(* ---- the tie to the source text ------------------------------------------------------------------
+   gen/GenAppFn.v is emitted on every run from the Python AST of ControllerApplication.ezsp_callback_handler,
+   _handle_frame and _handle_tc_join_handler (harness/pysrc.py): the chain on frame_name, the two tuple
+   unpackings selected by `self._ezsp.ezsp_version >= 14` (a name bound by the unpacking is the index of the
+   element of args; element k is the k-th field of the generated field list of the callback), the keyword
+   call of _handle_frame, the chain on message_type with the three destination constructions and the
+   `else: return`, every keyword of the ZigbeePacket, the decisions of the join handler on the device-update
+   status and the join decision.  Enum members are the ones the source names, with the values of the live
+   module.  In every version of the command tables the emitted dispatch hands zigpy exactly the events of
+   [translate_incoming] / [translate_join], so the statements above hold of the emitted code
+   (c13_source_packet, c13_source_join_events).  The messageSentHandler branch is the subject of C12
+   (the c12_source theorems); the branches that end in other handlers (route record, route error, reset request,
+   idConflictHandler) are emitted as the names of the methods they call and are not translated -- of
+   these _handle_id_conflict can itself report a leave (for a known device whose short address is in
+   conflict), which [translate] and c13_other_callbacks, being about the three callbacks of the property,
+   do not describe. *)
+Require Import BV.gen.GenAppFn BV.proofs.AppSrc_proofs.
+
+Theorem c13_source_handle_frame : forall own ty sep dep tsn profile cluster grp lqi rssi sender msg,
+  py_handle_frame own ty sep dep tsn profile cluster grp lqi rssi sender msg =
+  if is_packet_type ty
+  then [EvPacket {| k_src := sender; k_src_ep := sep; k_dst := dest_for ty own grp; k_dst_ep := dep;
+                    k_tsn := tsn; k_profile := profile; k_cluster := cluster; k_data := msg;
+                    k_lqi := lqi; k_rssi := rssi |}]
+  else [].
+Proof. exact src_handle_frame. Qed.
+
+Theorem c13_source_incoming : forall v own vs, In v (map fst CB_FIELDS) ->
+  py_ezsp_callback_handler v own "incomingMessageHandler" vs = POut (translate_incoming v own vs).
+Proof. exact src_incoming. Qed.
+
+Theorem c13_source_join : forall v own vs, In v (map fst CB_FIELDS) ->
+  py_ezsp_callback_handler v own "trustCenterJoinHandler" vs = POut (translate_join vs).
+Proof. exact src_join. Qed.
+
+(* whichever callback: where the emitted dispatch runs a translated handler the events are those of [translate];
+   where no branch matches, [translate] yields nothing either *)
+Theorem c13_source_dispatch : forall v own name vs r, In v (map fst CB_FIELDS) ->
+  py_ezsp_callback_handler v own name vs = POut r -> r = translate v own name vs.
+Proof. exact src_handled. Qed.
+
+Theorem c13_source_no_branch : forall v own name vs,
+  py_ezsp_callback_handler v own name vs = PNoBranch -> translate v own name vs = Some [].
+Proof. exact src_no_branch. Qed.
+
+(* c13_packet and c13_join, stated of the emitted code *)
+Theorem c13_source_packet : forall v own vs evs, In v (map fst CB_FIELDS) ->
+  py_ezsp_callback_handler v own "incomingMessageHandler" vs = POut (Some evs) ->
+  let '(pt, pa, pl, pr, ps, pm) := incoming_positions v in
+  exists ty profile cluster sep dep grp tsn lqi rssi sender msg,
+    geti pt vs = Some ty /\ geti pa vs = Some profile /\ geti (pa + 1) vs = Some cluster /\
+    geti (pa + 2) vs = Some sep /\ geti (pa + 3) vs = Some dep /\ geti (pa + 5) vs = Some grp /\
+    geti (pa + 6) vs = Some tsn /\ geti pl vs = Some lqi /\ geti pr vs = Some rssi /\
+    geti ps vs = Some sender /\ getb pm vs = Some msg /\
+    evs = if is_packet_type ty
+          then [EvPacket {| k_src := sender; k_src_ep := sep; k_dst := dest_for ty own grp; k_dst_ep := dep;
+                            k_tsn := tsn; k_profile := profile; k_cluster := cluster; k_data := msg;
+                            k_lqi := lqi; k_rssi := rssi |}]
+          else [].
+Proof. exact src_incoming_packet. Qed.
+
+Theorem c13_source_join_events : forall v own vs evs, In v (map fst CB_FIELDS) ->
+  py_ezsp_callback_handler v own "trustCenterJoinHandler" vs = POut (Some evs) ->
+  exists nwk ieee status decision parent,
+    geti 0 vs = Some nwk /\ getl 1 vs = Some ieee /\ geti 2 vs = Some status /\ geti 3 vs = Some decision /\
+    geti 4 vs = Some parent /\
+    evs = if (status =? Z.of_N DEVICE_LEFT)%Z then [EvLeave nwk ieee]
+          else if (decision =? Z.of_N DENY_JOIN)%Z then [] else [EvJoin nwk ieee parent].
+Proof. exact src_join_events. Qed.
+
+(* non-vacuity: the emitted dispatch on the v14 example above *)
+Example c13_source_example_v14 :
+  py_ezsp_callback_handler 14 0x1234 "incomingMessageHandler"
+    [XP (VI 2); XP (VI 0x0104); XP (VI 6); XP (VI 1); XP (VI 2); XP (VI 0x40); XP (VI 0x00AB); XP (VI 9);
+     XP (VI 0x5566); XL []; XP (VI 0); XP (VI 0); XP (VI 200); XP (VI (-70)); XP (VI 12345); XP (VB [1; 2; 3])]
+  = POut (Some [EvPacket {| k_src := 0x5566; k_src_ep := 1; k_dst := DGroup 0x00AB; k_dst_ep := 2; k_tsn := 9;
+                            k_profile := 0x0104; k_cluster := 6; k_data := [1; 2; 3]; k_lqi := 200; k_rssi := -70 |}]).
+Proof. vm_compute. reflexivity. Qed.
